@@ -247,6 +247,7 @@ ATOMICS = [
     Method("load", "atomic_load(&{recv})"),
     Method("store", "atomic_store(&{recv}, {0})"),
     Method("compare_exchange_strong", "atomic_cas_strong(&{recv}, &{0}, {1})"),
+    Method("compare_exchange_weak", "atomic_cas_weak(&{recv}, &{0}, {1})"),
 ]
 # member functions of scheduled_thread_pool<Scheduler>
 POOL = ENUMS + [
@@ -284,6 +285,15 @@ SPU_WAIT = """
 __CPROVER_assigns(g_v_state, g_o_state, g_last_read, g_reads, g_interfered, g_yields)
 __CPROVER_loop_invariant(VALID(g_v_state) && g_reads >= 0 && g_reads <= 2)
 """
+# a CAS retry loop around the running -> pre_sleep step (not in the pinned tree; an edit may introduce one): every failed attempt leaves
+# the word untouched and the loop may only ever try the step FROM `running`
+SPU_CAS_LOOP = """
+__CPROVER_assigns(expected, g_v_state, g_o_state, lin_count, lin_old, lin_new, lin_first_old, lin_first_new, g_last_read, g_reads, g_interfered)
+__CPROVER_loop_invariant(VALID(g_v_state) && IN_CYCLE(g_v_state) && g_reads >= 0 && g_reads <= 2 && lin_count == 0 && expected == runtime_state_running)
+"""
+SPU_LOOPS = {"by_pattern": [(r"while \(1\)\s*\{ bool vx_yw\d+;[^\n]*ulock_try_lock", LOOP_TRYLOCK, True),
+                            (r"while \(1\)\s*\{ bool vx_yw\d+;[^\n]*atomic_load", SPU_WAIT, True),
+                            (r"(?:while|do|for)\b[^\n]*(?:\n[^\n]*){0,3}?atomic_cas_(?:weak|strong)", SPU_CAS_LOOP, False)]}
 RPU_WAIT = """
 __CPROVER_assigns(g_v_state, g_o_state, g_last_read, g_reads, g_interfered, g_yields, g_resume_calls_v, g_resume_calls_o, g_resumes_since_read)
 __CPROVER_loop_invariant(VALID(g_v_state) && g_reads >= 0 && g_reads <= 2 && g_resume_calls_v >= 0 && g_resume_calls_v <= 2 && g_resume_calls_o >= 0 && g_resume_calls_o <= 2)
@@ -294,7 +304,7 @@ __CPROVER_loop_invariant(g_reads >= 1 ==> g_resume_calls_v >= 1)
 UNITS += [
     Unit("state.suspend_pu_internal", "state.c", defines=["U_SPU_INTERNAL"], enforce="suspend_processing_unit_internal",
          lifts=dict(STATE_HELPERS, body=Lift(IMPL, r"void scheduled_thread_pool<Scheduler>::suspend_processing_unit_internal\(",
-                                             rules=POOL, loops={1: LOOP_TRYLOCK, 2: SPU_WAIT, "count": 2})),
+                                             rules=POOL, loops=SPU_LOOPS)),
          funcs=[IMPL + ": scheduled_thread_pool::suspend_processing_unit_internal", SB_CPP + ": scheduler_base::get_state",
                 SB_HPP + ": scheduler_base::get_pu_mutex"], min_obligations=60,
          doc="S/M: the only step is running -> pre_sleep on the addressed worker, under its PU mutex, for a joinable worker; a "
